@@ -5,6 +5,8 @@
 // than 48 bytes are abstracted to [256, len%65536, len/65536, h1, h2] (256 cannot be a byte).
 #include <algorithm>
 #include <functional>
+#include <thread>
+#include <atomic>
 #include "rt/rt.h"
 #include "draco/compression/decode.h"
 #include "draco/compression/encode.h"
@@ -119,6 +121,9 @@ static void direct_case(const Tree &t, const std::vector<Att> &atts, bool has_mo
 }
 
 // full codec: geometry with one int32 position attribute whose unique id is the attribute-metadata id (if any)
+// streams kept for the concurrent phase: bytes, whether a mesh, and the serialised tree + attribute metadata a decode on its own returned
+struct Kept { std::vector<char> bytes; bool is_mesh; std::string solo; };
+static std::vector<Kept> g_kept;
 static void codec_case(int via, const Tree &t, const std::vector<Att> &atts) {
   static const char *names[] = {"pc_seq", "pc_kd", "mesh_eb", "mesh_seq"};
   const bool is_mesh = via >= 2;
@@ -160,6 +165,7 @@ static void codec_case(int via, const Tree &t, const std::vector<Att> &atts) {
     if (is_mesh) { auto r = dec.DecodeMeshFromBuffer(&db); if (r.ok()) res = std::move(r).value(); }
     else { auto r = dec.DecodePointCloudFromBuffer(&db); if (r.ok()) res = std::move(r).value(); }
     if (res && res->GetMetadata()) { dok = true; read_gm(res->GetMetadata(), &o, &oa); }
+    if (dok && g_kept.size() < 24 && eb.size() > 60 && eb.size() < 20000) g_kept.push_back({std::vector<char>(eb.data(), eb.data() + eb.size()), is_mesh, jtree(o) + jatts(oa)});
     if (res) { for (int a = 0; a < res->num_attributes(); ++a) g_out_uids.push_back((int)res->attribute(a)->unique_id()); std::sort(g_out_uids.begin(), g_out_uids.end()); }
   }
   emit(names[via], t, atts, st.ok(), dok, o, oa, nullptr, false, false, {}, true);
@@ -228,9 +234,35 @@ static int run_random(uint64_t seed, long n) {
       for (int k = 0; k < w; ++k) { Tree c; if (k % 97 == 0) c.e.push_back({Bytes{(uint8_t)'k'}, Bytes{(uint8_t)(k & 0xFF)}}); node->s.push_back({Bytes{(uint8_t)(k >> 8), (uint8_t)(k & 0xFF)}, c}); }
     }
     std::vector<Att> atts;
-    if (r.coin(1, 2)) atts.push_back({r.range(0, 70000), rnd_tree(r, r.range(0, 2))});
+    // attribute metadata: none, one (unique ids up to 2^31 - 1: five-byte varints from 2^28 on), or 13 .. 40 of them
+    if (r.coin(1, 2)) atts.push_back({r.coin(1, 4) ? r.range(0x10000000, 0x7fffffff) : r.range(0, 70000), rnd_tree(r, r.range(0, 2))});
+    if (i % 25 == 3) { atts.clear(); const int na = r.range(13, 40); for (int k = 0; k < na; ++k) atts.push_back({1000 + 7 * k, rnd_tree(r, k % 5 == 0 ? 1 : 0)}); }
     if (r.coin(1, 3)) direct_case(t, atts, false, false, {});
     codec_case((int)(i % 4), t, atts);
+  }
+  // concurrent phase: four threads decode the kept streams over and over, each with its own Decoder / DecoderBuffer / output geometry; every decode must
+  // return what the decode on its own returned (one thread's metadata never shows up in another's)
+  if (g_kept.size() >= 2) {
+    std::atomic<long> mismatches(0), decodes(0);
+    auto work = [&](int tid) {
+      for (int round = 0; round < 150; ++round)
+        for (size_t k = 0; k < g_kept.size(); ++k) {
+          const Kept &kp = g_kept[(k + (size_t)tid * 5) % g_kept.size()];
+          DecoderBuffer db; db.Init(kp.bytes.data(), kp.bytes.size());
+          Decoder dec;
+          std::unique_ptr<PointCloud> res;
+          if (kp.is_mesh) { auto rr = dec.DecodeMeshFromBuffer(&db); if (rr.ok()) res = std::move(rr).value(); }
+          else { auto rr = dec.DecodePointCloudFromBuffer(&db); if (rr.ok()) res = std::move(rr).value(); }
+          std::string got = "none";
+          if (res && res->GetMetadata()) { Tree o; std::vector<Att> oa; read_gm(res->GetMetadata(), &o, &oa); got = jtree(o) + jatts(oa); }
+          ++decodes;
+          if (got != kp.solo) ++mismatches;
+        }
+    };
+    std::vector<std::thread> th;
+    for (int tid = 0; tid < 4; ++tid) th.emplace_back(work, tid);
+    for (auto &x : th) x.join();
+    out.begin("Conc").i("streams", (long long)g_kept.size()).i("decodes", decodes.load()).i("mismatches", mismatches.load()).end();
   }
   return 0;
 }
